@@ -31,6 +31,8 @@ pub struct Config {
     pub take_default: &'static str,
     /// fallible functions (returning `Result`) -> Gallina template of a computation in the file-system monad `M`
     pub mcalls: Vec<(&'static str, &'static str)>,
+    /// fallible METHODS (`recv.m(args)?`) -> template (`{r}` receiver)
+    pub mmethods: Vec<(&'static str, &'static str)>,
     /// how a variable is rendered by `format!` / Display when it is not a string: variable -> Gallina template (`{v}`)
     pub display: Vec<(&'static str, &'static str)>,
 }
@@ -329,6 +331,15 @@ impl<'c> Tr<'c> {
             Expr::Reference(r) => self.mexpr(&r.expr),
             // error conversions do not change which operation failed or whether it failed
             Expr::MethodCall(m) if m.method == "map_err" => self.mexpr(&m.receiver),
+            Expr::MethodCall(m) => {
+                let name = m.method.to_string();
+                let Some(tpl) = self.cfg.mmethods.iter().find(|(k, _)| *k == name).map(|(_, t)| *t) else {
+                    return self.miss(format!("fallible method `{name}`"));
+                };
+                let r = self.expr(&m.receiver);
+                let args: Vec<String> = m.args.iter().map(|a| self.expr(a)).collect();
+                fill(tpl, &r, &args)
+            }
             Expr::Call(c) => {
                 let f = squash(&c.func);
                 if f == "Ok" && c.args.len() == 1 {
@@ -380,17 +391,53 @@ impl<'c> Tr<'c> {
                     format!("let {name} := {rhs} in\n{k}")
                 }
             }
+            // `use ..;` inside a block
+            Stmt::Item(_) => self.mstmts(rest),
+            // statements compiled only on other platforms
+            Stmt::Expr(e, _) if crate::util::cfg_excludes_unix(expr_attrs(e)) => self.mstmts(rest),
+            // `#[cfg(unix)] { .. }`: the block's statements are part of the sequence
+            Stmt::Expr(Expr::Block(b), _) => {
+                let mut all: Vec<Stmt> = b.block.stmts.clone();
+                all.extend(rest.iter().cloned());
+                self.mstmts(&all)
+            }
             Stmt::Expr(Expr::Try(t), Some(_)) => {
                 let m = self.mexpr(&t.expr);
                 let k = self.mstmts(rest);
                 format!("{m} ;;;\n{k}")
+            }
+            // a mutating call on a local (`file_name.push(ext)`)
+            Stmt::Expr(Expr::MethodCall(m), Some(_)) if self.cfg.mutators.iter().any(|(k, _)| *k == m.method.to_string()) => {
+                let tpl = self.cfg.mutators.iter().find(|(k, _)| *k == m.method.to_string()).map(|(_, t)| *t).unwrap();
+                let Some(p) = place_name(&m.receiver) else {
+                    return self.miss(format!("statement `{}`", squash(m)));
+                };
+                let args: Vec<String> = m.args.iter().map(|a| self.expr(a)).collect();
+                let rhs = fill(tpl, &p, &args);
+                let k = self.mstmts(rest);
+                format!("let {p} := {rhs} in\n{k}")
             }
             Stmt::Expr(Expr::ForLoop(fl), _) => {
                 let item = pat_term(&fl.pat);
                 let iter = self.expr(&fl.expr);
                 let body = self.mstmts(&fl.body.stmts);
                 let k = self.mstmts(rest);
-                format!("iterM (fun {item} =>\n{body}) {iter} ;;;\n{k}")
+                format!("iterM (fun item_ =>\nlet '{item} := item_ in\n{body}) {iter} ;;;\n{k}")
+            }
+            Stmt::Expr(Expr::If(i), _) if !matches!(&*i.cond, Expr::Let(_)) && self.reads_state(&i.cond) => {
+                // the condition looks at the file system (`path.exists()`): it is evaluated in the state the
+                // statement runs in
+                let c = self.expr(&i.cond);
+                let t = self.mstmts(&i.then_branch.stmts);
+                let f = match &i.else_branch {
+                    None => "ret tt".to_string(),
+                    Some((_, eb)) => match &**eb {
+                        Expr::Block(b) => self.mstmts(&b.block.stmts),
+                        other => self.miss(format!("else branch `{}`", squash(other))),
+                    },
+                };
+                let k = self.mstmts(rest);
+                format!("(fun st_ => (if {c} then\n{t}\nelse {f}) st_) ;;;\n{k}")
             }
             Stmt::Expr(Expr::If(i), _) if !matches!(&*i.cond, Expr::Let(_)) => {
                 let c = self.expr(&i.cond);
@@ -427,6 +474,14 @@ impl<'c> Tr<'c> {
             Stmt::Expr(e, None) if rest.is_empty() => self.mvalue(e),
             other => self.miss(format!("statement `{}`", squash(other))),
         }
+    }
+
+    /// does the (pure-looking) expression read the file system?  (its translation mentions the state variable)
+    fn reads_state(&mut self, e: &Expr) -> bool {
+        let saved = self.missing.len();
+        let t = self.expr(e);
+        self.missing.truncate(saved);
+        t.contains("st_")
     }
 
     /// the value a `Result`-returning function ends with
@@ -785,6 +840,20 @@ fn some_binding(p: &Pat) -> Option<String> {
 
 fn is_return_ok_unit(b: &Block) -> bool {
     b.stmts.len() == 1 && squash(&b.stmts[0]) == "returnOk(());"
+}
+
+fn expr_attrs(e: &Expr) -> &[syn::Attribute] {
+    match e {
+        Expr::Block(b) => &b.attrs,
+        Expr::Try(t) => match &*t.expr {
+            Expr::Call(c) => if t.attrs.is_empty() { &c.attrs } else { &t.attrs },
+            _ => &t.attrs,
+        },
+        Expr::Call(c) => &c.attrs,
+        Expr::MethodCall(m) => &m.attrs,
+        Expr::If(i) => &i.attrs,
+        _ => &[],
+    }
 }
 
 fn collect_variants(p: &Pat, out: &mut Vec<String>) {
